@@ -168,7 +168,26 @@ def d_depth(tier):
         t = Tree(n, pid=pids)
         cnt = t.traverse(leave=lambda nd, ch: 1 + sum(ch))
         ok = ok and cnt == n
-        detail = f"recursion limit {sys.getrecursionlimit()}, chain of {n}: leave-depth={depth}, Tree.traverse count={cnt}"
+        # a deep comb (spine of 6000 nodes, two tips on every spine node), leave only, from a mid-spine start node: every node left exactly once
+        m = 6000
+        cp = [-1] + list(range(m - 1))
+        for sp in range(m):
+            cp += [sp, sp]
+        cids, cpids = np.arange(len(cp), dtype=np.int32), np.array(cp, dtype=np.int32)
+        seen = {}
+
+        def lv(i, ch):
+            i = int(i if not hasattr(i, "id") else i.id)
+            seen[i] = seen.get(i, 0) + 1
+            return 1 + sum(ch)
+
+        tot = traverse((cids, cpids), leave=lv)
+        ok = ok and tot == len(cp) and all(v == 1 for v in seen.values()) and len(seen) == len(cp)
+        seen.clear()
+        ct = Tree(len(cp), pid=cpids)
+        sub = ct.node(3000).traverse(leave=lv)
+        ok = ok and sub == (m - 3000) * 3 and all(v == 1 for v in seen.values())
+        detail = f"recursion limit {sys.getrecursionlimit()}, chain of {n}: leave-depth={depth}, Tree.traverse count={cnt}; comb of {len(cp)} nodes: total {tot}, sub tree {sub}, every node left once: {all(v == 1 for v in seen.values())}"
         out.append(dict(name="aux.depth_1e5", status="discharged" if ok else "violated", detail=detail, solver_s=0.0,
                         sample=dict(kind="auxiliary_non_solver", detail=detail, wall_s=round(time.time() - t0, 2)),
                         replay=dict(reproduced=True, why=detail)))
@@ -195,5 +214,5 @@ HARNESSES = [
       validate=True),
     H("after_edit", h_after_edit, quick=[dict(n=k, how=h) for k in (2, 3, 4) for h in ("setter", "redirect")], thorough=[dict(n=5, how=h) for h in ("setter", "redirect")], functions=FUNCTIONS + ["swcgeom.core.node.Node.pid (setter)", "swcgeom.core.tree_utils.redirect_tree"],
       bounds="every tree with n<=4/5 nodes, traversed, then every re-parenting of one node through its handle / every unsorted re-rooting, then traversed again"),
-    Direct("depth", d_depth, functions=FUNCTIONS, bounds="auxiliary concrete run: one chain of 10^5 nodes (not a solver claim)"),
+    Direct("depth", d_depth, functions=FUNCTIONS, bounds="auxiliary concrete runs: one chain of 10^5 nodes and one comb of 18000 nodes, leave-only (not a solver claim)"),
 ]
